@@ -1,11 +1,12 @@
 import PSO.Model.Basic
 /-!
-Byte-level model of `pysyncobj/journal.py` (with the repair `fixes/D08-journal-grow-until-fits.diff`
-applied): `ResizableFile`, `MetaStorer`, `FileJournal`, and the reference `MemoryJournal`.
+Byte-level model of `pysyncobj/journal.py` (with the repairs `fixes/D08-journal-grow-until-fits.diff`
+and `fixes/D15-journal-head-drop-by-atomic-replace.diff` applied): `ResizableFile`, `MetaStorer`, `FileJournal`, and the reference `MemoryJournal`.
 
 * The journal file is a `List UInt8`; its length is the size of the mapping.
 * Every operation returns the new object state *and* the ordered list of primitive writes it
-  performed (`Prim`): mmap resize, mmap slice store, `.meta.tmp` create / write, move onto `.meta`.
+  performed (`Prim`): mmap resize, mmap slice store, `.meta.tmp` create / write, move onto `.meta`,
+  and the same on the head drop's second journal file `<journal>.tmp` plus its atomic rename.
   The new disk is, by construction, the old disk with these primitives applied in order
   (`FJ.step_disk` in the proofs), so "killed after the first k primitive writes (and t bytes of the
   next one)" is `crashDisk d prims k t`.
@@ -83,6 +84,13 @@ inductive Prim where
   | tmpCreate                        -- `open(path + '.tmp', 'wb')`
   | tmpWrite (v : Option Nat)        -- `f.write(dumps(meta)); f.flush()`
   | tmpMove                          -- `shutil.move(path + '.tmp', path)`
+  -- the head drop's second journal file `<journal>.tmp` (fixes/D15-journal-head-drop-by-atomic-replace.diff)
+  | jtRemove                         -- `os.remove(journal + '.tmp')` (stale file of an earlier kill)
+  | jtCreate                         -- `open(journal + '.tmp', 'wb')`: empty file
+  | jtWrite (bs : Bytes)             -- `f.write(defaultContent)` + close
+  | jtResize (n : Nat)               -- `mm.resize(n)` on the tmp journal
+  | jtStore (off : Nat) (bs : Bytes) -- slice store into the tmp journal
+  | jtRename                         -- `shutil.move(journal + '.tmp', journal)`: atomic replace
 deriving DecidableEq, Repr
 
 inductive Tmp where
@@ -95,6 +103,7 @@ structure Disk where
   file : Bytes
   metaFile : Option Nat := none
   tmp : Tmp := .absent
+  jtmp : Option Bytes := none        -- `<journal>.tmp`: absent, or its bytes
 deriving DecidableEq, Repr
 
 def resizeFile (f : Bytes) (n : Nat) : Bytes :=
@@ -110,6 +119,15 @@ def applyPrim (d : Disk) : Prim → Disk
     | .absent => d
     | .torn => { d with metaFile := none, tmp := .absent }
     | .full v => { d with metaFile := v, tmp := .absent }
+  | .jtRemove => { d with jtmp := none }
+  | .jtCreate => { d with jtmp := some [] }
+  | .jtWrite bs => { d with jtmp := some bs }
+  | .jtResize n => { d with jtmp := d.jtmp.map (resizeFile · n) }
+  | .jtStore off bs => { d with jtmp := d.jtmp.map (storeAt · off bs) }
+  | .jtRename =>
+    match d.jtmp with
+    | none => d
+    | some f => { d with file := f, jtmp := none }
 
 def applyPrims (d : Disk) (ps : List Prim) : Disk := ps.foldl applyPrim d
 
@@ -121,6 +139,9 @@ def tornPrim (d : Disk) (p : Prim) (t : Nat) : Disk :=
   match p with
   | .store off bs => if atomicStore off bs then d else { d with file := storeAt d.file off (bs.take t) }
   | .tmpWrite _ => { d with tmp := .torn }
+  | .jtWrite bs => { d with jtmp := some (bs.take t) }
+  | .jtStore off bs =>
+    if atomicStore off bs then d else { d with jtmp := d.jtmp.map (storeAt · off (bs.take t)) }
   | _ => d
 
 /-- Disk after a kill: the first `k` primitives of `ps` happened, and `t` bytes of the next one. -/
@@ -152,6 +173,7 @@ structure FJ where
   cur : Nat                 -- `__currentOffset`
   mci : Option Nat          -- `__meta.get('raftCommitIndex')`
   metaSaved : Bool
+  ver : Bytes := []         -- `APP_VERSION` of the running code (a constant of the process)
 deriving DecidableEq, Repr
 
 inductive Op where
@@ -193,8 +215,9 @@ def scan (f : Bytes) (last cur : Nat) : Except Err (List Entry × Nat) :=
 termination_by last - cur
 decreasing_by omega
 
-/-- `FileJournal(path)` on an existing file. -/
-def openDisk (d : Disk) : Except Err (FJ × List Prim) :=
+/-- `FileJournal(path)` on an existing file, by code whose `APP_VERSION` is `ver`. A left-over
+`<journal>.tmp` is ignored. -/
+def openDisk (ver : Bytes) (d : Disk) : Except Err (FJ × List Prim) :=
   if d.file.length = 0 then .error .emptyFile
   else
     let ps : List Prim := if d.file.length < INITIAL_SIZE then [.resize INITIAL_SIZE] else []
@@ -204,12 +227,13 @@ def openDisk (d : Disk) : Except Err (FJ × List Prim) :=
     | some last =>
       match scan d'.file last FIRST_RECORD_OFFSET with
       | .error e => .error e
-      | .ok (es, c) => .ok ({ disk := d', entries := es, cur := c, mci := d'.metaFile, metaSaved := true }, ps)
+      | .ok (es, c) =>
+        .ok ({ disk := d', entries := es, cur := c, mci := d'.metaFile, metaSaved := true, ver := ver }, ps)
 
 /-- `FileJournal(path)` when the file does not exist yet. -/
 def create (ver : Bytes) : FJ :=
   { disk := { file := resizeFile (defaultHeader ver) INITIAL_SIZE }, entries := [],
-    cur := FIRST_RECORD_OFFSET, mci := none, metaSaved := true }
+    cur := FIRST_RECORD_OFFSET, mci := none, metaSaved := true, ver := ver }
 
 def FJ.withFile (j : FJ) (f : Bytes) : FJ := { j with disk := { j.disk with file := f } }
 
@@ -265,8 +289,31 @@ def addAll (j : FJ) : List Entry → Except Err (FJ × List Prim)
       | .error x => .error x
       | .ok (j2, p2) => .ok (j2, p1 ++ p2)
 
-/-- `deleteEntriesTo`: `clear()` then `add` of every kept entry. -/
+/-- The same write issued on the head drop's tmp journal instead of the journal file. -/
+def toTmp : Prim → Prim
+  | .resize n => .jtResize n
+  | .store off bs => .jtStore off bs
+  | p => p
+
+/-- `deleteEntriesTo` (repaired, D15): the kept entries are `add`ed to a fresh `<journal>.tmp`
+(the object's file attribute points to it meanwhile), which then replaces the journal atomically;
+the journal is reopened (no write: it has at least `INITIAL_SIZE` bytes). -/
 def FJ.delTo (j : FJ) (n : Nat) : Except Err (FJ × List Prim) :=
+  let hdr := defaultHeader j.ver
+  let p0 : List Prim :=
+    (if j.disk.jtmp.isSome then [.jtRemove] else []) ++ [.jtCreate, .jtWrite hdr] ++
+    (if hdr.length < INITIAL_SIZE then [.jtResize INITIAL_SIZE] else [])
+  let f0 := if hdr.length < INITIAL_SIZE then resizeFile hdr INITIAL_SIZE else hdr
+  let j1 : FJ := { j with disk := { j.disk with file := f0 }, entries := [], cur := FIRST_RECORD_OFFSET }
+  match addAll j1 (j.entries.drop n) with
+  | .error x => .error x
+  | .ok (j2, ps) =>
+    .ok ({ j2 with disk := { j.disk with file := j2.disk.file, jtmp := none } },
+         p0 ++ ps.map toTmp ++ [.jtRename])
+
+/-- The head drop BEFORE the repair (`clear()` then re-`add` in place); kept only to state the old
+defect D15 (`PSO.C08.old_headdrop_counterexample`). Not executed by `FJ.step`. -/
+def FJ.delToOld (j : FJ) (n : Nat) : Except Err (FJ × List Prim) :=
   match j.clear with
   | .error x => .error x
   | .ok (j1, p1) =>
@@ -287,7 +334,7 @@ def FJ.step (j : FJ) : Op → Except Err (FJ × List Prim)
   | .delTo n => j.delTo n
   | .setCommit v => .ok ({ j with mci := some v, metaSaved := false }, [])
   | .timer => .ok j.timer
-  | .reopen => openDisk j.disk
+  | .reopen => openDisk j.ver j.disk
 
 /-- `getRaftCommitIndex`. -/
 def FJ.commitIndex (j : FJ) : Nat := j.mci.getD 1
@@ -345,7 +392,7 @@ def CrashSpec (old : List Entry) : Op → List Entry → Prop
   | .add e, r => r = old ∨ r = old ++ [e]                  -- all or nothing
   | .clear, r => r = old ∨ r = []
   | .delFrom n, r => ∃ m, n ≤ m ∧ r = old.take m           -- a prefix that contains `old.take n`
-  | .delTo n, r => ∃ a, a ≤ n ∧ r = old.drop a             -- a suffix that contains `old.drop n`
+  | .delTo n, r => r = old ∨ r = old.drop n                -- the old journal or exactly the kept suffix
   | _, r => r = old
 
 /-- Values ever passed to `setRaftCommitIndex`. -/
